@@ -1204,8 +1204,14 @@ HX_ACCESSORS = ["__str__", "__repr__", "name", "reading", "prev_reading", "readi
                 "indicator_settings", "timeframes", "indicators", "indicator", "member"]
 
 
+CANDLE_NAMES = ["high_low", "realbody", "shadow_upper", "shadow_lower", "close", "volume", "positive"]
+
+
 def _dotted(ind, use):
-    """own name, or name.<first key> when the indicator is dict-valued and a dotted name is asked for"""
+    """own name, or name.<first key> when the indicator is dict-valued and a dotted name is asked for; a string = that name itself
+    (a candle field or one of the derived candle measurements, which every reading accessor also serves)"""
+    if isinstance(use, str):
+        return use
     if use and ind.candles:
         r = ind.candles[-1].indicators.get(ind.name)
         if isinstance(r, dict) and r:
@@ -1231,7 +1237,7 @@ def call_ind_accessor(ind, acc):
     if label == "prev_reading":
         return ind.prev_reading(_dotted(ind, True) if args[0] else None)
     if label == "as_list":
-        return ind.as_list(_dotted(ind, True) if args[0] else None)
+        return ind.as_list(_dotted(ind, args[0]) if args[0] else None)
     if label == "reading_count":
         return ind.reading_count(_dotted(ind, True) if args[0] else None)
     if label == "reading_period":
@@ -1287,6 +1293,8 @@ def gen_ind_accessor(rng, label=None):
     label = label or rng.choice(IND_ACCESSORS)
     idx = rng.choice([None, -1, -1, 0, 1, -2, -3, 2])
     dot = rng.random() < 0.4
+    if rng.random() < 0.2:
+        dot = rng.choice(CANDLE_NAMES)
     return {"reading": [label, idx, dot], "prev_reading": [label, dot], "as_list": [label, dot], "reading_count": [label, dot],
             "reading_period": [label, rng.randint(1, 6), dot], "candles_sum": [label, rng.randint(1, 6), dot],
             "read_candle": [label, rng.choice([-1, 0, -2, 1])]}.get(label, [label])
@@ -1296,6 +1304,8 @@ def gen_hx_accessor(rng, label=None):
     label = label or rng.choice(HX_ACCESSORS)
     mem = rng.randrange(4)
     dot = rng.random() < 0.4
+    if rng.random() < 0.2:
+        dot = rng.choice(CANDLE_NAMES)
     return {"reading": [label, mem, rng.choice([-1, -1, 0, 1, -2, 5]), dot], "prev_reading": [label, mem, dot],
             "reading_as_list": [label, mem, dot], "has_reading": [label, mem, dot], "indicator": [label, mem],
             "member": [label, mem, gen_ind_accessor(rng)], "candles": [label, rng.choice([None, 0, 1, 2])]}.get(label, [label])
